@@ -35,7 +35,13 @@ PROGRAMS = [
     "(import os sys [path argv] collections :as co) (defn f [] (global os sys path argv co) (setv os 1 sys 2 path 3 argv 4 co 5))",
     "(defn :async f [xs] (lfor :async x xs :do (setv p x q x r x) [p q r]))",
     "(defn f [] (setv a 1 b 2 c 3) (defclass K [] (defn m [self] (nonlocal c a b) (setv a 0 b 0 c 0))) K)",
+    # local requires of the * / :as / bare form list every macro name in the emitted code
+    "(defn f [] (require hy.core.macros *) (when 1 2))",
+    "(defn f [] (require hy.core.macros :as cm) (let [a 1] (require hy.core.macros) a))",
 ]
+# programs also compiled under real PYTHONHASHSEED values: sets that are not created through the name `set` (set operators on
+# dict views, C-level constructors) are invisible to the NDSet stub
+REAL_SEEDS_ALWAYS = [len(PROGRAMS) - 2, len(PROGRAMS) - 1, 6, 8]
 
 
 def compile_dump(text):
@@ -135,7 +141,8 @@ def spec(tier, seed):
         recs.append({"name": "audit", "verdict": "CONFIRMED", "sample": "set displays / comprehensions not reachable by rebinding the name `set` in %s: %r" % (ndset.MODULES, aud),
                      "paths": 1, "queries": 0, "solver_s": 0.0, "group": "audit", "twin": False})
         # real hash seeds on a few programs (replay-side evidence; not the deciding step)
-        for text in progs[:3 if tier_ == "quick" else 8]:
+        chosen = list(range(3 if tier_ == "quick" else 8)) + [i for i in REAL_SEEDS_ALWAYS if i >= (3 if tier_ == "quick" else 8)]
+        for text in [progs[i] for i in chosen]:
             seen = seeds_confirm(text, 6 if tier_ == "quick" else 24)
             ok = len(seen) == 1
             recs.append({"name": "hashseeds:" + text[:40], "verdict": "CONFIRMED" if ok else "POST_FAIL", "reproduces": None if ok else True,
@@ -158,7 +165,7 @@ def spec(tier, seed):
         "bounds": "%d programs heavy in nonlocal/global (1-5 names), let, comprehensions with leaked names, except clauses, match, defclass, macros, imports; every `set`/`frozenset` "
                   "created by name in %s iterates in an order chosen by the first %d solver integers (each 0..%d; later iterations use the canonical order)"
                   % (len(progs), ndset.MODULES, 2 if tier == "quick" else 5, 3 if tier == "quick" else 4),
-        "outside": "orders that need more choice points than stated; dict ordering (insertion-ordered, deterministic); sets created by set displays/comprehensions listed by the audit; "
+        "outside": "sets not created through the names set/frozenset (set operators on dict views etc.) are only seen by the real-hash-seed runs on 7 programs; orders that need more choice points than stated; dict ordering (insertion-ordered, deterministic); sets created by set displays/comprehensions listed by the audit; "
                    "id()-dependent ordering",
         "stubs": ["set/frozenset names rebound in the compile-path modules (vf/ndset.py)", "crosshair.util.getsourcelines wrapper"],
         "assumptions": ["over-approximation: every iteration order of a set is assumed realisable by some hash seed; a reported order is a violation only when the harness replays it natively "
